@@ -223,6 +223,15 @@ def newCfg (size : Int) (initial max : Int) : Except CfgErr Cfg :=
   else if orDefault max defaultMax > (ceiling : Int) then .error .ceiling
   else .ok ⟨(orDefault initial defaultInitial).toNat, (orDefault max defaultMax).toNat⟩
 
+/-- the failure-cache bounds a `Cache` built by `cache.New` runs with:
+`RecursionFirewallConfig.Normalize` (zero size → default), `NewFailureCache`,
+and on rejection the stock defaults ("validation failed, using defaults").
+No other setting (expire, cache size, …) takes part. -/
+def cacheNewCfg (size : Int) (initial max : Int) : Cfg :=
+  match newCfg (if size = 0 then 4096 else size) initial max with
+  | .ok c => c
+  | .error _ => ⟨defaultInitial, defaultMax⟩
+
 def Cfg.Valid (c : Cfg) : Prop := second ≤ c.initial ∧ c.initial ≤ c.max ∧ c.max ≤ ceiling
 
 /-- the loop of `FailureCache.backoff`; the first argument is the number of
@@ -475,6 +484,31 @@ zone history of the audience THAT ASKED (`k.scope` = the client's ECS source
 prefix) is reset. -/
 def Store.writeBackAnswer (H : Hash) (s : Store) (now : Int) (k : QKey) (answerScoped : Bool) : Store :=
   (s.setFromResponse H now k.name k.qtype k.qclass k.cd answerScoped .useful).resetMatchingFailures H k
+
+/-- the key `Cache.ServeDNS` joins the single-flight (`waitgroup`) under on a
+miss: the retained failure generation when there is one (`FailureRetryKey`),
+otherwise the exact question in the client's audience. -/
+inductive DedupKey
+  | retry (h : UInt64)
+  | question (k : QKey)
+deriving DecidableEq, Repr
+
+def Store.dedupKey (H : Hash) (s : Store) (now : Int) (k : QKey) : DedupKey :=
+  match s.failureRetryKey H now k with
+  | some h => .retry h
+  | none => .question (normalizeQ k)
+
+/-- number of distinct keys = number of leaders `JoinGeneration` elects while
+every leader is still running. -/
+def distinctCount : List DedupKey → Nat
+  | [] => 0
+  | x :: t => (if t.contains x then 0 else 1) + distinctCount t
+
+/-- a batch of requests arriving together: (leaders elected, requests served
+from the failure cache). -/
+def Store.probeBatch (H : Hash) (s : Store) (now : Int) (ks : List QKey) : Nat × Nat :=
+  let misses := ks.filter (fun k => (s.lookupFailure H now k).isNone)
+  (distinctCount (misses.map (s.dedupKey H now)), ks.length - misses.length)
 
 /-! ### admission filters -/
 
